@@ -1,9 +1,20 @@
-(* C19 - Index construction is schedule-independent and lookups are exact.  Statements only. *)
+(* C19 - Index construction is schedule-independent and lookups are exact.  Statements only.
+   The model (Algo/BBHash.v) follows the vendored boomphf 0.6.0 source; what it does not exhibit - real rayon
+   work splitting, hardware memory ordering beyond "a Relaxed load of collide may return a stale false",
+   the word-level rank/popcount code - is covered by the sampled runs only (see lib/props.py, level_note). *)
 From Coq Require Import NArith List Bool Arith Relations.
 From DBG Require Import Spec.Dna Spec.GraphIndex Algo.BBHash Proofs.BBHashProofs.
 Import ListNotations.
 Local Open Scope nat_scope.
 
-Theorem C19_lset_length : forall A (l : list A) i x, length (lset l i x) = length l.
-Proof. exact @lset_length. Qed.
-Print Assumptions C19_lset_length.
+(* Phase 1 of one BBHash level (Context::find_collisions on every key, in parallel): for EVERY interleaving of
+   the threads' atomic steps and every choice of stale reads of [collide], once all threads are done
+   a[s] = (at least one key hashes to s) and collide[s] = (at least two keys hash to s).
+   No bound on the number of keys, slots or steps. *)
+Theorem C19_level_schedule_independent : forall (slots : list nat) (size : nat),
+  (forall i, i < length slots -> slot slots i < size) ->
+  forall st, clos_refl_trans _ (step1 slots) (init1 (length slots) size) st -> done1 slots st ->
+    sa st = map (fun s => 1 <=? cnt s slots) (seq 0 size) /\
+    sc st = map (fun s => 2 <=? cnt s slots) (seq 0 size).
+Proof. exact phase1_final. Qed.
+Print Assumptions C19_level_schedule_independent.
